@@ -89,12 +89,12 @@ Proof. exact env_bad_value_is_error_l. Qed.
 (* ... and "parses" includes the range check of the concrete width: a value
    is never truncated. *)
 Theorem env_int_never_truncated : forall w name s v,
-  parse_text (TBasic (KInt w) name) s = Ok v -> predeclared name = true ->
+  parse_text (TBasic (KInt w) name) s = Ok v -> str_eqb name duration_name = false ->
   exists z, v = VInt z /\ in_int_range w z = true.
 Proof. exact parse_text_int_in_range. Qed.
 
 Theorem env_uint_never_truncated : forall w name s v,
-  parse_text (TBasic (KUint w) name) s = Ok v -> predeclared name = true ->
+  parse_text (TBasic (KUint w) name) s = Ok v -> str_eqb name duration_name = false ->
   exists n, v = VInt (Z.of_N n) /\ in_uint_range w n = true.
 Proof. exact parse_text_uint_in_range. Qed.
 
